@@ -86,6 +86,63 @@ def iter_claims(s, I):
     return out
 
 
+CONST_PROTO = [("CartesianX", ("Integer", 5, 5)), ("CartesianY", ("Integer", -1, -1)), ("CartesianZ", ("ScaledInteger", 7, 7, 0.5, 1.0))]
+
+
+def const_scenario(kind):
+    """C01/C03: a prototype whose records ALL have min = max stores no bits per point, so the section the writer produces is
+    a header without packets (spec_pcw decides the writer side for such a prototype); other producers may add data packets
+    with empty byte streams.  Nothing is assumed about the section length or about the bytes behind the header: the iterator
+    must deliver the declared number of points, each equal to the minima, whatever follows."""
+    def scen(I):
+        init_interp(I)
+        I.use_uf_div = True
+        s = mk_abs_reader(I, max_pages=3, cursor_bits=16)
+        I.last_state = s
+        s.kind, s.first_empty, s.proto = kind, False, CONST_PROTO
+        sec = fresh("sec_log", bits=12)
+        I.path.assume(z3.And((sec & U64(3)) == U64(0), z3.ULE(sec + U64(200), s.npages * U64(PAYLOAD))))
+        s.sec = sec
+        D = s.D
+        for p in range(3):
+            I.path.assume(z3.Implies(z3.ULT(U64(p), s.npages), s.valid(U64(p))))
+        cons = [D(sec) == z3.BitVecVal(1, 8), (D(sec + U64(8)) & z3.BitVecVal(3, 8)) == z3.BitVecVal(0, 8)]
+        cons += le_bytes(D, sec + U64(16), phys(sec + U64(32)), 8)         # data offset: directly behind the header
+        for c in cons:
+            I.path.assume(c)
+        records = fresh("pc_records")
+        I.path.assume(z3.UGE(records, U64(1)))
+        s.holder["pc"] = mk_pointcloud(I, CONST_PROTO, phys(sec), records)
+        cls = "PointCloudReaderRaw" if kind == "raw" else "PointCloudReaderSimple"
+        r = I.call_fn(I.methods[(cls, None, "new")], [Ref(Loc(s.holder, "pc")), s.ref])
+        s.new = r
+        if r.vname != "Ok":
+            return s
+        s.holder["it"] = r.fields[0]
+        s.res = I.call_fn(I.methods[(cls, "Iterator", "next")], [Ref(Loc(s.holder, "it"))])
+        return s
+    return scen
+
+
+def const_claims(s, I):
+    out = [("the iterator can be created on the section of an all-constant prototype", z3.BoolVal(s.new.vname == "Ok"))]
+    if s.new.vname != "Ok":
+        return out
+    res = s.res
+    ok_point = res.vname == "Some" and res.fields[0].vname == "Ok"
+    out.append(("all-constant prototype (no stored bits, no packets), records >= 1: the first point is delivered", z3.BoolVal(ok_point)))
+    if ok_point and s.kind == "raw":
+        pt = res.fields[0].fields[0]
+        ok = len(pt.items) == len(CONST_PROTO)
+        conj = []
+        if ok:
+            for it, (nm, d) in zip(pt.items, CONST_PROTO):
+                ok = ok and it.vname == d[0]
+                conj.append(it.fields[0] == z3.BitVecVal(d[1], 64))
+        out.append(("the delivered values are the declared minima, in prototype order and kind", z3.And(z3.BoolVal(ok), *conj) if ok else z3.BoolVal(False)))
+    return out
+
+
 def done_scenario(kind):
     """read == records: the iterator returns None without touching the device"""
     def scen(I):
@@ -116,11 +173,12 @@ def done_claims(s, I):
 
 
 def _it_extra(model, s):
-    return dict(sec=mval(model, s.sec), records=min(mval(model, z3.BitVec("pc_records", 64)), 1 << 40), kind=s.kind, first_empty=s.first_empty)
+    return dict(sec=mval(model, s.sec), records=min(mval(model, z3.BitVec("pc_records", 64)), 1 << 40), kind=s.kind, first_empty=s.first_empty,
+                proto=getattr(s, "proto", PROTO))
 
 
 def _it_op(pre):
-    recs = ", ".join("crate::Record { name: crate::RecordName::%s, data_type: %s }" % (nm, rust_dtype(d)) for nm, d in PROTO)
+    recs = ", ".join("crate::Record { name: crate::RecordName::%s, data_type: %s }" % (nm, rust_dtype(d)) for nm, d in pre.get("proto", PROTO))
     sec = pre["sec"]
     physoff = sec + 4 * (sec // 1020)
     cls = "crate::pc_reader_raw::PointCloudReaderRaw" if pre["kind"] == "raw" else "crate::pc_reader_simple::PointCloudReaderSimple"
@@ -150,3 +208,281 @@ def scenarios(tier="quick"):
         Scenario("simple iterator: first next() over [data packet with one point]", iter_scenario("simple", first_empty=False), iter_claims, max_paths=300, replayer=rp),
         Scenario("raw iterator: next() after `records` points", done_scenario("raw"), done_claims, max_paths=50),
     ]
+
+
+def const_scenarios(tier="quick"):
+    rp = AbsReaderReplay(_it_op, _it_extra, _it_rebuild)
+    return [
+        Scenario("raw iterator: first next() on an all-constant prototype (any bytes behind the section header)", const_scenario("raw"), const_claims, max_paths=300, replayer=rp),
+        Scenario("simple iterator: first next() on an all-constant prototype (any bytes behind the section header)", const_scenario("simple"), const_claims, max_paths=300, replayer=rp),
+    ]
+
+
+# ------------------------------------------------------------------------------------------------ C05: bookkeeping of a batch of buffered points
+BATCH_PROTO = [("CartesianX", ("Double",)), ("CartesianY", ("Double",)), ("CartesianZ", ("Double",)), ("CartesianInvalidState", ("Integer", 0, 2)),
+               ("RowIndex", ("Integer", 0, 100000))]
+BATCH_M = 2
+
+
+def batch_scenario(kind, sym_options=False):
+    """One inductive step of the count/order bookkeeping: the queue reader holds BATCH_M complete points (any values, legal
+    invalid-state), the iterator has already delivered `read0` < records points.  Two next() calls.  The row index is the
+    identity tag of a point (no conversion touches it).  For the simple iterator the four post-processing switches are
+    symbolic (sym_options) or off."""
+    def scen(I):
+        init_interp(I)
+        I.use_uf_div = True
+        s = mk_abs_reader(I, max_pages=3, cursor_bits=16)
+        I.last_state = s
+        s.kind, s.proto, s.sym_options = kind, BATCH_PROTO, sym_options
+        s.records, s.read0 = fresh("pc_records"), fresh("it_read")
+        I.path.assume(z3.ULT(s.read0, s.records))
+        pc = mk_pointcloud(I, BATCH_PROTO, fresh("pc_offset"), s.records)
+        l0 = logical(pc.fields[I.struct_fields["PointCloud"].index("file_offset")])
+        I.path.assume(z3.And(s.D(l0) == z3.BitVecVal(1, 8), (s.D(l0 + U64(8)) & z3.BitVecVal(3, 8)) == z3.BitVecVal(0, 8)))
+        s.holder["pc"] = pc
+        cls = "PointCloudReaderRaw" if kind == "raw" else "PointCloudReaderSimple"
+        r = I.call_fn(I.methods[(cls, None, "new")], [Ref(Loc(s.holder, "pc")), s.ref])
+        s.new = r
+        if r.vname != "Ok":
+            return s
+        it = r.fields[0]
+        s.holder["it"] = it
+        names = I.struct_fields[cls]
+        it.fields[names.index("read")] = s.read0
+        s.opts = {}
+        if kind == "simple":
+            for o in ("transform", "s2c", "c2s", "i2c"):
+                s.opts[o] = z3.Bool("opt_" + o) if sym_options else z3.BoolVal(False)
+                it.fields[names.index(o)] = s.opts[o]
+        q = it.fields[names.index("queue_reader")]
+        from .spec_packet import qr_field
+        queues = qr_field(I, q, "queues").items
+        s.rows = []
+        s.raws = [[z3.BitVec("raw%d_%d" % (k, j), 64) for j in range(len(BATCH_PROTO))] for k in range(BATCH_M)]
+        for k in range(BATCH_M):
+            for j, (nm, d) in enumerate(BATCH_PROTO):
+                b = s.raws[k][j]
+                if d[0] == "Double":
+                    from .spec_simple import F64
+                    v = enum_variant(I, "RecordValue", "Double", [z3.fpBVToFP(b, F64)])
+                else:
+                    v = enum_variant(I, "RecordValue", d[0], [b])
+                    if nm == "CartesianInvalidState":
+                        I.path.assume(z3.And(b >= 0, b <= 2))
+                    if nm == "RowIndex":
+                        s.rows.append(b)
+                queues[j].items.append(v)
+        s.c0 = s.holder["r"].cursor
+        s.res, s.reads, s.cursors = [], [], []
+        for _ in range(BATCH_M):
+            s.res.append(I.call_fn(I.methods[(cls, "Iterator", "next")], [Ref(Loc(s.holder, "it"))]))
+            s.reads.append(s.holder["it"].fields[names.index("read")])
+            s.cursors.append(s.holder["r"].cursor)
+        return s
+    return scen
+
+
+def _row_of(I, s, res):
+    """row tag of a delivered item, or None"""
+    if res.vname != "Some" or res.fields[0].vname != "Ok":
+        return None
+    p = res.fields[0].fields[0]
+    if s.kind == "raw":
+        return p.items[len(BATCH_PROTO) - 1].fields[0]
+    return p.fields[I.struct_fields["Point"].index("row")]
+
+
+def batch_claims(s, I):
+    out = []
+    if s.new.vname != "Ok":
+        return out
+    r0 = _row_of(I, s, s.res[0])
+    out.append(("call 1 (read < records, points buffered): delivers a point", z3.BoolVal(r0 is not None)))
+    if r0 is None:
+        return out
+    out.append(("call 1 delivers the OLDEST buffered point", r0 == s.rows[0]))
+    out.append(("call 1 counts one delivered point", s.reads[0] == s.read0 + U64(1)))
+    if s.kind == "simple" and getattr(s, "opts", None):
+        # each switch changes only the aspect it documents (this prototype: Cartesian + state + row, no spherical/colour/intensity)
+        from .spec_simple import F64, feq
+        pt = s.res[0].fields[0].fields[0]
+        pn = I.struct_fields["Point"]
+        cart, sph = pt.fields[pn.index("cartesian")], pt.fields[pn.index("spherical")]
+        st = s.raws[0][3]
+        out.append(("validity of the Cartesian coordinate follows the stored state whatever the switches are",
+                    {"Valid": st == 0, "Direction": st == 1, "Invalid": st == 2}[cart.vname]))
+        if cart.vname != "Invalid":
+            stored = [z3.fpBVToFP(s.raws[0][j], F64) for j in range(3)]
+            same = z3.And(*[feq(a, b) for a, b in zip(cart.fields, stored)])
+            out.append(("without apply_pose the Cartesian components are the stored values whatever the other switches are",
+                        z3.Implies(z3.Not(s.opts["transform"]), same)))
+        out.append(("without cartesian_to_spherical no spherical coordinate appears (none is stored)",
+                    z3.Implies(z3.Not(s.opts["c2s"]), z3.BoolVal(sph.vname == "Invalid"))))
+        out.append(("colour and intensity stay absent (none stored), whatever the switches are",
+                    z3.BoolVal(pt.fields[pn.index("color")].vname == "None" and pt.fields[pn.index("intensity")].vname == "None")))
+    exhausted = z3.UGE(s.read0 + U64(1), s.records)
+    if s.res[1].vname == "None":
+        out.append(("call 2 yields None only when the declared record count is reached", exhausted))
+        out.append(("None does not count", s.reads[1] == s.read0 + U64(1)))
+    else:
+        r1 = _row_of(I, s, s.res[1])
+        out.append(("call 2 (record count not reached): delivers a point, not an error", z3.BoolVal(r1 is not None)))
+        out.append(("call 2 never delivers beyond the declared record count", z3.Not(exhausted)))
+        if r1 is not None:
+            out.append(("call 2 delivers the NEXT buffered point (order preserved)", r1 == s.rows[1]))
+            out.append(("call 2 counts one delivered point", s.reads[1] == s.read0 + U64(2)))
+    out.append(("no device access while complete points are buffered", z3.And(s.cursors[0] == s.c0, s.cursors[1] == s.c0)))
+    return out
+
+
+BATCH_HELPER_RAW = r"""
+#[cfg(test)]
+impl<'a, T: std::io::Read + std::io::Seek> PointCloudReaderRaw<'a, T> {
+    pub(crate) fn verif_push(&mut self, i: usize, v: crate::RecordValue) { self.queue_reader.verif_push(i, v); }
+    pub(crate) fn verif_offset(&self) -> u64 { self.queue_reader.verif_offset() }
+    pub(crate) fn verif_set_read(&mut self, n: u64) { self.read = n; }
+    pub(crate) fn verif_read(&self) -> u64 { self.read }
+}
+"""
+BATCH_HELPER_SIMPLE = r"""
+#[cfg(test)]
+impl<'a, T: std::io::Read + std::io::Seek> PointCloudReaderSimple<'a, T> {
+    pub(crate) fn verif_push(&mut self, i: usize, v: RecordValue) { self.queue_reader.verif_push(i, v); }
+    pub(crate) fn verif_offset(&self) -> u64 { self.queue_reader.verif_offset() }
+    pub(crate) fn verif_set_read(&mut self, n: u64) { self.read = n; }
+    pub(crate) fn verif_read(&self) -> u64 { self.read }
+}
+"""
+
+
+BATCH_HELPER_PAGED = r"""
+#[cfg(test)]
+impl<T: std::io::Read + std::io::Seek> PagedReader<T> {
+    pub(crate) fn verif_offset(&self) -> u64 { self.offset }
+}
+"""
+BATCH_HELPER_QUEUE = r"""
+#[cfg(test)]
+impl<'a, T: std::io::Read + std::io::Seek> QueueReader<'a, T> {
+    pub(crate) fn verif_offset(&self) -> u64 { self.reader.verif_offset() }
+}
+"""
+
+
+class BatchReplay(AbsReaderReplay):
+    def __init__(self):
+        super().__init__(None, None, None)
+
+    def extract(self, I, model, s):
+        def b(x):
+            return bool(mval(model, z3.If(x, U64(1), U64(0))))
+        self.extra = lambda m, ss: dict(kind=ss.kind, records=mval(m, ss.records), read0=mval(m, ss.read0), pc_offset=mval(m, z3.BitVec("pc_offset", 64)),
+                                        opts={k: b(v) for k, v in ss.opts.items()},
+                                        raws=[[mval(m, z3.BitVec("raw%d_%d" % (k, j), 64)) for j in range(len(BATCH_PROTO))] for k in range(BATCH_M)])
+        return super().extract(I, model, s)
+
+    def run(self, I, scenario, claim_name, pre):
+        from .replay import HELPERS, native_panicked, parse_kv, run_rust_test
+        from .spec_page import READER_DRIVER
+        from .spec_simple import QR_PUSH_HELPER
+        from .models import ErrV, OkV
+        from .values import VecV
+        kind = pre["kind"]
+        recs = ", ".join("crate::Record { name: crate::RecordName::%s, data_type: %s }" % (nm, rust_dtype(d)) for nm, d in BATCH_PROTO)
+        pushes = ""
+        for row in pre["raws"]:
+            for j, ((nm, d), x) in enumerate(zip(BATCH_PROTO, row)):
+                if d[0] == "Double":
+                    pushes += "it.verif_push(%d, crate::RecordValue::Double(f64::from_bits(%d))); " % (j, x)
+                else:
+                    pushes += "it.verif_push(%d, crate::RecordValue::%s(%d)); " % (j, d[0], x - (1 << 64) if x >= (1 << 63) else x)
+        cls = "crate::pc_reader_raw::PointCloudReaderRaw" if kind == "raw" else "crate::pc_reader_simple::PointCloudReaderSimple"
+        setopts = ""
+        if kind == "simple":
+            o = pre["opts"]
+            setopts = "it.apply_pose(%s); it.spherical_to_cartesian(%s); it.cartesian_to_spherical(%s); it.intensity_to_color(%s); " % tuple(
+                "true" if o[k] else "false" for k in ("transform", "s2c", "c2s", "i2c"))
+        if kind == "raw":
+            show = "Some(Ok(p)) => println!(\"VR res{k}=ok:{}\", match p[%d] { crate::RecordValue::Integer(x) => x, _ => -777 }), " % (len(BATCH_PROTO) - 1)
+        else:
+            show = ("Some(Ok(p)) => { println!(\"VR res{k}=ok:{}\", p.row); "
+                    "match p.cartesian { crate::CartesianCoordinate::Valid { x, y, z } => println!(\"VR cart{k}=Valid:{}:{}:{}\", x.to_bits(), y.to_bits(), z.to_bits()), "
+                    "crate::CartesianCoordinate::Direction { x, y, z } => println!(\"VR cart{k}=Direction:{}:{}:{}\", x.to_bits(), y.to_bits(), z.to_bits()), crate::CartesianCoordinate::Invalid => println!(\"VR cart{k}=Invalid\") } "
+                    "println!(\"VR sph{k}={} col{k}={} inten{k}={}\", match p.spherical { crate::SphericalCoordinate::Invalid => \"Invalid\", crate::SphericalCoordinate::Valid { .. } => \"Valid\", _ => \"Direction\" }, "
+                    "if p.color.is_some() { \"Some\" } else { \"None\" }, if p.intensity.is_some() { \"Some\" } else { \"None\" }); }, ")
+        calls = ""
+        for k in range(BATCH_M):
+            calls += ("match it.next() { None => println!(\"VR res%d=none\"), Some(Err(_)) => println!(\"VR res%d=err\"), " % (k, k) + show.replace("{k}", str(k)) + "} "
+                      "println!(\"VR read%d={} cur%d={}\", it.verif_read(), it.verif_offset()); " % (k, k))
+        op = ("let mut pc = crate::PointCloud::default(); pc.prototype = vec![%s]; pc.records = %d; pc.file_offset = %d; "
+              "match %s::new(&pc, &mut r) { Err(_) => println!(\"VR new=err\"), Ok(mut it) => { println!(\"VR new=ok cur_new={}\", it.verif_offset()); it.verif_set_read(%d); %s %s %s } }"
+              % (recs, pre["records"], pre["pc_offset"], cls, pre["read0"], setopts, pushes, calls))
+        drv = READER_DRIVER % dict(helpers=HELPERS, dev=rust_bytes(pre["dev"]), cached=pre["cached"], offset=pre["offset"], op=op, fault_at=-1, shorts="")
+        code = {"paged_reader.rs": drv + BATCH_HELPER_PAGED, "queue_reader.rs": QR_PUSH_HELPER + BATCH_HELPER_QUEUE, ("pc_reader_raw.rs" if kind == "raw" else "pc_reader_simple.rs"): BATCH_HELPER_RAW if kind == "raw" else BATCH_HELPER_SIMPLE}
+        rc, out = run_rust_test(I.crate_dir, None, code)
+        kv = parse_kv(out)
+        info = dict(pre={k: (len(v) if isinstance(v, bytes) else v) for k, v in pre.items()}, rust=drv)
+        pan = native_panicked(out)
+        if claim_name == "no panic":
+            return (pan is not None and "pre_offset" in kv), "native: " + (pan or "no panic"), info
+        if pan or "post_offset" not in kv or "new" not in kv:
+            return False, "native run did not complete: " + (pan or out[-300:]), info
+        if kv["new"] != "ok":
+            return False, "natively the iterator cannot be created for this device", info
+        s = native_abs_reader(pre, kv)
+        s.kind, s.proto = kind, BATCH_PROTO
+        s.new = OkV(None)
+        s.records, s.read0 = U64(pre["records"]), U64(pre["read0"])
+        s.rows = [z3.BitVecVal(row[-1], 64) for row in pre["raws"]]
+        s.raws = [[z3.BitVecVal(x, 64) for x in row] for row in pre["raws"]]
+        s.opts = {k: z3.BoolVal(v) for k, v in pre["opts"].items()}
+        s.c0 = U64(int(kv.get("cur_new", "0")))          # native reader offsets: only their equality matters to the claims
+        s.res, s.reads, s.cursors = [], [], []
+        names = I.struct_fields["Point"]
+        for k in range(BATCH_M):
+            t = kv.get("res%d" % k, "err")
+            if t == "none":
+                s.res.append(NoneV())
+            elif t.startswith("ok:"):
+                row = z3.BitVecVal(int(t[3:]), 64)
+                if kind == "raw":
+                    p = VecV([None] * (len(BATCH_PROTO) - 1) + [enum_variant(I, "RecordValue", "Integer", [row])], "Vec")
+                else:
+                    from .spec_simple import F64
+                    pf = [None] * len(names)
+                    pf[names.index("row")] = row
+                    cparts = kv.get("cart%d" % k, "Invalid").split(":")
+                    pf[names.index("cartesian")] = enum_variant(I, "CartesianCoordinate", cparts[0], [z3.fpBVToFP(z3.BitVecVal(int(x), 64), F64) for x in cparts[1:]])
+                    sk_ = kv.get("sph%d" % k, "Invalid")
+                    pf[names.index("spherical")] = enum_variant(I, "SphericalCoordinate", sk_, [None] * {"Invalid": 0, "Direction": 2, "Valid": 3}[sk_])
+                    pf[names.index("color")] = SomeV(None) if kv.get("col%d" % k) == "Some" else NoneV()
+                    pf[names.index("intensity")] = SomeV(None) if kv.get("inten%d" % k) == "Some" else NoneV()
+                    p = Agg("struct", pf, "Point")
+                s.res.append(SomeV(OkV(p)))
+            else:
+                s.res.append(SomeV(ErrV(None)))
+            s.reads.append(U64(int(kv.get("read%d" % k, "0"))))
+            s.cursors.append(U64(int(kv.get("cur%d" % k, "0"))))
+        vals = {}
+        for name, c in scenario.claims(s, I):
+            c = z3.simplify(c) if not isinstance(c, bool) else z3.BoolVal(c)
+            vals[name] = True if z3.is_true(c) else (False if z3.is_false(c) else None)
+        info["native_claims"] = vals
+        if vals.get(claim_name) is False:
+            return True, "claim is false on the native result", info
+        other = [k for k, x in vals.items() if x is False]
+        if other:
+            return True, "on the native run the claim '%s' is false (the named claim evaluates to %r)" % (other[0], vals.get(claim_name)), info
+        return False, "claim evaluates to %r natively" % (vals.get(claim_name),), info
+
+
+def batch_scenarios(tier="quick"):
+    rp = BatchReplay()
+    out = [Scenario("raw iterator: two next() calls over %d buffered points, any read < records" % BATCH_M, batch_scenario("raw"), batch_claims, max_paths=300, replayer=rp),
+           Scenario("simple iterator: two next() calls over %d buffered points, any read < records, post-processing off" % BATCH_M, batch_scenario("simple"), batch_claims,
+                    max_paths=600, time_budget=900, replayer=rp)]
+    if tier != "quick":
+        out.append(Scenario("simple iterator: two next() calls over %d buffered points, any read < records, any setting of the four post-processing switches" % BATCH_M,
+                            batch_scenario("simple", sym_options=True), batch_claims, max_paths=6000, time_budget=2400, replayer=rp))
+    return out
